@@ -29,6 +29,7 @@ var errWriter = errors.New("verif: caller's writer refuses")
 
 type faultWriter struct {
 	failFrom int // fail from this Write call on (1-based); 0 = never
+	full     bool // a failing call still takes everything it is given (and says so) before reporting its error
 	calls    int
 	got      bytes.Buffer
 	chunks   []string
@@ -37,6 +38,11 @@ type faultWriter struct {
 func (w *faultWriter) Write(p []byte) (int, error) {
 	w.calls++
 	if w.failFrom != 0 && w.calls >= w.failFrom {
+		if w.full {
+			w.got.Write(p)
+			w.chunks = append(w.chunks, string(p))
+			return len(p), errWriter
+		}
 		return 0, errWriter
 	}
 	w.got.Write(p)
@@ -50,6 +56,7 @@ type execHist struct {
 	FailAt int             `json:"failAt"`
 	FailIn int             `json:"failIn"`
 	WFail  int             `json:"wfail"`
+	WKind  string          `json:"wkind"`
 	Sink   [][]interface{} `json:"sink"`
 	Out    [][]interface{} `json:"out"`
 	Err    string          `json:"err"`
@@ -127,7 +134,7 @@ func cmdC14Replay(args []string) {
 					inc += fmt.Sprintf(`{{ "i%d;" }}`, j)
 				}
 			}
-			key := fmt.Sprintf("%s|%s|%s|w%d", src.String(), inc, h.Entry, h.WFail)
+			key := fmt.Sprintf("%s|%s|%s|w%d%s", src.String(), inc, h.Entry, h.WFail, h.WKind)
 			if seen[key] {
 				continue
 			}
@@ -139,9 +146,9 @@ func cmdC14Replay(args []string) {
 				fatal("c14 template does not compile:", src.String(), o.Err)
 			}
 			ctx := pongo2.Context{"fail": func() (string, error) { return "", errors.New("injected failure") }}
-			w := &faultWriter{failFrom: h.WFail}
+			w := &faultWriter{failFrom: h.WFail, full: h.WKind == "full"}
 			out, err, pan := runEntry(tpl, h.Entry, ctx, w)
-			desc := fmt.Sprintf("fault injection: template %q include %q via %s, writer fails from write %d", src.String(), inc, h.Entry, h.WFail)
+			desc := fmt.Sprintf("fault injection: template %q include %q via %s, writer fails from write %d (%s)", src.String(), inc, h.Entry, h.WFail, h.WKind)
 			viol := func(what string) {
 				rep.viol(desc+": "+what, map[string]interface{}{"vector": raw, "cmd": "c14-replay"})
 			}
@@ -249,7 +256,12 @@ func variantCtx(c1 pongo2.Context, which string) pongo2.Context {
 			}
 		}
 	case "cbad":
-		out["bad-key"] = 1
+		if _, mid := c1["boom"]; mid {
+			// the execution fails at the node that calls boom(), after everything before it has been rendered
+			out["boom"] = func() (string, error) { return "", errors.New("injected failure") }
+		} else {
+			out["bad-key"] = 1
+		}
 	}
 	return out
 }
@@ -308,6 +320,33 @@ func extraPrograms() []progCase {
 		c["l3"] = []interface{}{1, 2, 2}
 		out = append(out, progCase{Name: "filter:" + f, Src: src, Files: files, Ctx: map[string]pongo2.Context{"c1": c}})
 	}
+	// a failure in the middle of every construct that renders a body (the failing execution of a history is the one with the
+	// context in which boom() fails), the same construct once more behind it, inside and outside a loop
+	bodies := map[string]string{
+		"if": "{% if 1 %}@{% endif %}", "for": "{% for j in l3 %}@{% endfor %}", "with": "{% with q=1 %}@{% endwith %}",
+		"filter": "{% filter upper %}@{% endfilter %}", "filter2": "{% filter lower|upper %}{% filter cut:\"x\" %}@{% endfilter %}{% endfilter %}",
+		"spaceless": "{% spaceless %}<b> @ </b> <i>{% endspaceless %}", "autoescape": "{% autoescape off %}@{% endautoescape %}",
+		"block": "{% block zz# %}@{% endblock %}", "ifchanged": "{% ifchanged %}@{% endifchanged %}", "ifequal": "{% ifequal 1 1 %}@{% endifequal %}",
+		"macro": "{% macro mf#() %}@{% endmacro %}{{ mf#() }}", "include": "{% include \"/boomfile\" %}@", "set": "{% set q = boom() %}@", "firstof": "{% firstof boom() %}@",
+		"cycle": "{% cycle boom() \"z\" %}@", "widthratio": "{% widthratio 1 2 boom() %}@",
+	}
+	for name, shape := range bodies {
+		mk := func(n string, body string) string {
+			return strings.ReplaceAll(strings.ReplaceAll(shape, "#", n), "@", body)
+		}
+		src := "A" + mk("1", "a{{ boom() }}b{{ sv }}") + "B" + mk("2", "c{{ sv }}") + "{% for i in l3 %}" + mk("3", "d{{ i }}") + "{% endfor %}"
+		if name == "block" || name == "macro" {
+			src = "A" + mk("1", "a{{ boom() }}b{{ sv }}") + "B" + mk("2", "c{{ sv }}")
+		}
+		c := ctx()
+		c["l3"] = []interface{}{1, 2, 2}
+		c["boom"] = func() (string, error) { return "ok", nil }
+		f := map[string]string{"/boomfile": "f{{ sv }}{{ boom() }}g"}
+		for k, v := range files {
+			f[k] = v
+		}
+		out = append(out, progCase{Name: "midfail:" + name, Src: src, Files: f, Ctx: map[string]pongo2.Context{"c1": c}})
+	}
 	// calls: every signature shape of a context function x 0..8 written arguments, evaluated twice per execution
 	// (a compiled call's argument list belongs to the template: executing it must leave it as it was)
 	callees := []string{"fctxv", "fsum", "fctx", "fanyv", "fcat", "fm1", "rptr.M1", "rstruct.Fn", "nope"}
@@ -324,6 +363,17 @@ func extraPrograms() []progCase {
 			}
 			c["l3"] = []interface{}{1, 2, 2}
 			out = append(out, progCase{Name: "call:" + fn + ":" + strconv.Itoa(n), Src: src, Files: files, Ctx: map[string]pongo2.Context{"c1": c}})
+		}
+	}
+	// failure paths of the filters (registry driven): inputs and parameters a filter may refuse, at two places of one template;
+	// every execution fails (or not) the same way, with the same message and position
+	for _, f := range pongo2.VerifRegisteredFilters() {
+		if f == "random" {
+			continue
+		}
+		for i, shape := range []string{`{{ sv|F }}|{{ sv|F }}`, `{{ nv|F:"a,b,c,d" }}|{{ nv|F:"a,b,c,d" }}`, `{{ l|F:100000 }}|{{ l|F:100000 }}`, `{{ nope|F:sv }}{% filter F:-5 %}x{% endfilter %}`} {
+			c := ctx()
+			out = append(out, progCase{Name: fmt.Sprintf("errpath:%s:%d", f, i), Src: "a\n  " + strings.ReplaceAll(shape, "F", f) + "z", Files: files, Ctx: map[string]pongo2.Context{"c1": c}})
 		}
 	}
 	out = append(out, progCase{Name: "extends", Src: `{% extends "/base0" %}{% block bb %}{% cycle "a" "b" %}{{ block.Super }}{% endblock %}`,
@@ -617,7 +667,7 @@ func cmdC05Free(args []string) {
 		// keep all registry-driven programs, sample the rest
 		var keep []progCase
 		for i, p := range progs {
-			if strings.HasPrefix(p.Name, "tag:") || strings.HasPrefix(p.Name, "filter:") || strings.HasPrefix(p.Name, "nondet:") || p.Name == "extends" || p.Name == "trim" || (i*7919+seed)%(len(progs)/maxp+1) == 0 {
+			if strings.HasPrefix(p.Name, "tag:") || strings.HasPrefix(p.Name, "filter:") || strings.HasPrefix(p.Name, "nondet:") || strings.HasPrefix(p.Name, "midfail:") || strings.HasPrefix(p.Name, "errpath:") || p.Name == "extends" || p.Name == "trim" || (i*7919+seed)%(len(progs)/maxp+1) == 0 {
 				keep = append(keep, p)
 			}
 		}
@@ -636,12 +686,18 @@ func cmdC05Free(args []string) {
 		}
 		lazy, _ := compileString(set, "{% include lazyname %}{% include lazyname %}")
 		ctxs := []pongo2.Context{variantCtx(p.Ctx["c1"], "c1"), variantCtx(p.Ctx["c1"], "c2")}
-		solo := []outcome{execute(tpl, ctxs[0]), execute(tpl, ctxs[1])}
 		lazyCtx := pongo2.Context{"lazyname": "/lazy", "sv": "s"}
-		lazySolo := execute(lazy, lazyCtx)
 		rep.Checked++
 		var wg sync.WaitGroup
 		var mu sync.Mutex
+		// the concurrent phase comes first (whatever an execution initialises lazily is then initialised by several at once);
+		// what each execution returned is compared afterwards with what the same call returns alone
+		type conc struct {
+			ci   int
+			got  outcome
+			lazy bool
+		}
+		var results []conc
 		for g := 0; g < k; g++ {
 			wg.Add(1)
 			go func(g int) {
@@ -661,13 +717,9 @@ func cmdC05Free(args []string) {
 							got.Out = ""
 						}
 					}
-					want := solo[ci]
-					if got.Panic != "" || (got.Err == "") != (want.Err == "") || (got.Err == "" && got.Out != want.Out && !nondet[p.Name]) {
-						mu.Lock()
-						rep.viol(fmt.Sprintf("concurrent execution: program %s %q with %d goroutines: one execution returned %q / %q, alone it returns %q / %q",
-							p.Name, p.Src, k, got.Out, firstLine(got.Err+got.Panic), want.Out, firstLine(want.Err)), map[string]interface{}{"cmd": "c05-free", "program": p.Src})
-						mu.Unlock()
-					}
+					mu.Lock()
+					results = append(results, conc{ci: ci, got: got})
+					mu.Unlock()
 					// compile / fetch / lazily include in the same set at the same time
 					switch (g + it) % 3 {
 					case 0:
@@ -675,11 +727,10 @@ func cmdC05Free(args []string) {
 							t2.Execute(ctxs[ci])
 						}
 					case 1:
-						if lo := execute(lazy, lazyCtx); lo != lazySolo {
-							mu.Lock()
-							rep.viol(fmt.Sprintf("concurrent lazy include returned %q / %q, alone %q", lo.Out, firstLine(lo.Err+lo.Panic), lazySolo.Out), map[string]interface{}{"cmd": "c05-free"})
-							mu.Unlock()
-						}
+						lo := execute(lazy, lazyCtx)
+						mu.Lock()
+						results = append(results, conc{got: lo, lazy: true})
+						mu.Unlock()
 					case 2:
 						set.FromString(p.Src)
 					}
@@ -687,6 +738,21 @@ func cmdC05Free(args []string) {
 			}(g)
 		}
 		wg.Wait()
+		solo := []outcome{execute(tpl, ctxs[0]), execute(tpl, ctxs[1])}
+		lazySolo := execute(lazy, lazyCtx)
+		for _, r := range results {
+			if r.lazy {
+				if r.got != lazySolo {
+					rep.viol(fmt.Sprintf("concurrent lazy include returned %q / %q, alone %q", r.got.Out, firstLine(r.got.Err+r.got.Panic), lazySolo.Out), map[string]interface{}{"cmd": "c05-free"})
+				}
+				continue
+			}
+			got, want := r.got, solo[r.ci]
+			if got.Panic != "" || firstLine(got.Err) != firstLine(want.Err) || (got.Err == "" && got.Out != want.Out && !nondet[p.Name]) {
+				rep.viol(fmt.Sprintf("concurrent execution: program %s %q with %d goroutines: one execution returned %q / %q, alone it returns %q / %q",
+					p.Name, p.Src, k, got.Out, firstLine(got.Err+got.Panic), want.Out, firstLine(want.Err)), map[string]interface{}{"cmd": "c05-free", "program": p.Src})
+			}
+		}
 		if rep.Checked%50 == 1 {
 			rep.sample(map[string]interface{}{"program": p.Src, "goroutines": k})
 		}
